@@ -14,6 +14,9 @@
                      dynamic read: value.get(offset..offset+len) else StorageOutOfBounds, $err = 0/1;
                      update: offset > len or len_after > max -> StorageOutOfBounds; write: len > max.
   MAT-panics         StorageOutOfBounds / TooManySlots / ExpectedInternalContext stay reachable per handler.
+  ALWAYS-write-back  the write helpers behind SWRD/SWRI/SUPD/SUPI call storage_write_slot on every Ok path, so the key is
+                     present after a successful write for every argument (including a zero-length update of a missing
+                     slot).
 Not decided: map semantics for overlapping ranges as values.
 """
 import re
@@ -206,6 +209,20 @@ def run(F, rep, tier, allfacts):
     s2 = [(args, callee_name(c)) for i, c, args, *_ in calls(f) if callee_matches(c, r"::storage_write_slot$")]
     rep.check(bool(s2) and all(all("internal_contract(" in x or x == "arg:contract_id" for x in origins(f, a[1], depth=14)) for a, _ in s2), "ID-current",
               "storage_update_from_memory:write-id", "%s:%s" % (f["file"], f["line"]), "the slot written back must belong to the current contract")
+
+    # a storage *write* instruction leaves the key present afterwards for every argument (also a zero-length update of
+    # a missing slot creates the empty slot): every Ok path of the write helpers reaches storage_write_slot
+    rep.rule("ALWAYS-write-back", "storage_update_from_memory / storage_write_from_memory reach storage_write_slot on every Ok path")
+    from fvlib.summ import ok_sites as _oks
+    for hn in ("storage_update_from_memory", "storage_write_slot_from_memory"):
+        try:
+            n, f = fn(hn)
+        except Exception:
+            continue
+        c_ = CFG(f)
+        wb = [i for i, c, *_ in calls(f) if callee_matches(c, r"::storage_write_slot$")]
+        rep.check(bool(wb) and c_.must_pass(wb, 0, _oks(f, c_)), "ALWAYS-write-back", hn, "%s:%s" % (f["file"], f["line"]),
+                  "%s can return Ok without calling storage_write_slot: the slot would not exist after a successful write instruction" % hn)
 
     # ---- bounds shapes
     n, f = fn("storage_read_to_memory")
